@@ -11,6 +11,7 @@ C03 — The parser builds the tree the source spells out.
 * Literals: decimal integer numerals denote exactly their value or are rejected outside int64.
 -/
 import Anko.Proofs.Pratt
+import Anko.Gen.ParserGen
 import Anko.Gen.Prec
 import Anko.Model.PrecTable
 import Anko.Model.Num
@@ -164,5 +165,10 @@ example : pr genTbl 0 (.bin "-" (.atom 1) (.bin "-" (.atom 2) (.atom 3))) =
 example : pr genTbl 0 (.bin "??" (.atom 1) (.bin "??" (.atom 2) (.atom 3))) =
     [.atom 1, .op "??", .atom 2, .op "??", .atom 3] := by decide
 example : decDigits 4095 = [52, 48, 57, 53] := by simp [decDigits, digitChar]
+
+/-- The parser that is compiled IS the one generated from the grammar file: re-running goyacc on
+parser/parser.go.y reproduces the committed parser/parser.go byte for byte (regenerated on every
+run), so facts read off the grammar are facts about the running parser. -/
+theorem committed_parser_is_generated_from_grammar : Gen.ParserGen.committedParserIsGenerated = true := by decide
 
 end Anko.C03
